@@ -44,7 +44,7 @@ Definition chk_hash (c : view * bytes * bool) : bool :=
   if exact then zlist_eqb (hash_input v) got else zprefix (hash_input v) got.
 
 (* negotiation: the AEAD ciphers (encryption_needs_mac = false), the two KEXINIT payloads as sent, and what
-   a side reports: None = key exchange failed for lack of a common algorithm; Some list of the eight names
+   the sides report: None = key exchange failed for lack of a common algorithm; Some [per side: the eight names
    in the order kex, host key, enc c->s, enc s->c, mac c->s, mac s->c, compression c->s, s->c where an entry
    None was not observable on that side *)
 Definition neg_list (r : negres) : list bytes :=
@@ -57,19 +57,36 @@ Fixpoint obs_match (model : list bytes) (obs : list (option bytes)) : bool :=
   | _, _ => false
   end.
 
-Definition chk_negotiate (c : list bytes * bytes * bytes * option (list (option bytes))) : bool :=
+Definition chk_negotiate (c : list bytes * bytes * bytes * option (list (list (option bytes)))) : bool :=
   let '(aead, ic, is_, got) := c in
   match negotiate_payloads (fun e => negb (mem e aead)) ic is_, got with
   | None, None => true
-  | Some r, Some o => obs_match (neg_list r) o
+  | Some r, Some os => forallb (obs_match (neg_list r)) os
   | _, _ => false
   end.
 
-(* on-path edits: the two local views as reconstructed from the wire (K left out), whether the handshake
-   ran to the authenticated state, and whether the edit is one for which the model predicts the outcome in
-   both directions (a re-framed field-level edit): completion happens exactly when the views are equal *)
-Definition chk_sweep (c : view * view * bool * bool) : bool :=
-  let '(vc, vs, completed, exact) := c in
+(* on-path edits: the client's local view as reconstructed from the wire (K left out), the fields in which
+   the server's local view differs from it (the harness sends only those), whether the handshake ran to the
+   authenticated state, and whether the edit is one for which the model predicts the outcome in both
+   directions (a re-framed field-level edit): completion happens exactly when the views are equal *)
+Inductive vdiff :=
+| DB (i : Z) (b : bytes)       (* 0 v_c, 1 v_s, 2 i_c, 3 i_s, 4 k_s *)
+| DF (x : kexfields).
+
+Definition apply_diff (v : view) (d : vdiff) : view :=
+  match d with
+  | DB i b =>
+      if i =? 0 then mkView b (v_s v) (i_c v) (i_s v) (k_s v) (kf v) (kk v)
+      else if i =? 1 then mkView (v_c v) b (i_c v) (i_s v) (k_s v) (kf v) (kk v)
+      else if i =? 2 then mkView (v_c v) (v_s v) b (i_s v) (k_s v) (kf v) (kk v)
+      else if i =? 3 then mkView (v_c v) (v_s v) (i_c v) b (k_s v) (kf v) (kk v)
+      else mkView (v_c v) (v_s v) (i_c v) (i_s v) b (kf v) (kk v)
+  | DF x => mkView (v_c v) (v_s v) (i_c v) (i_s v) (k_s v) x (kk v)
+  end.
+
+Definition chk_sweep (c : view * list vdiff * bool * bool) : bool :=
+  let '(vc, diffs, completed, exact) := c in
+  let vs := fold_left apply_diff diffs vc in
   if completed then view_eqb vc vs else if exact then negb (view_eqb vc vs) else true.
 
 (* group exchange: (preferred, max) of the request as the server received it and the bit size of the
